@@ -53,6 +53,9 @@ def sweeps(col, pp, mons, hdepth_quick=3, hdepth_thorough=4, track_path=False):
         # amount moved is q, not 'everything'; and vessels with a trace solute of a few femtomoles: it is conserved like the rest
         e1.Explorer(pp, v, e1.W_DEFAULT, e1.seed_history_P(), alphabets.near_whole_sweep(), mons, 'N/near-whole', track_path).run(1, col)
         e1.Explorer(pp, v, alphabets.W_TRACE, [], alphabets.trace_alphabet(), mons, 'X/trace', track_path).run(depth - 1, col)
+        # the same number and prefix in another base unit, one request after the other (histories of two)
+        e1.Explorer(pp, v, e1.W_DEFAULT, e1.seed_history_P(), alphabets.same_number_alphabet(), mons, 'Y/same-number',
+                    track_path).run(2, col)
         # substances that share a name (twins) meet in one vessel: every amount stays with the substance it belongs to
         e1.Explorer(pp, v, alphabets.W_TWIN, alphabets.twin_seed(), alphabets.twin_alphabet(), mons, 'T/twins',
                     track_path).run(depth - 1, col)
